@@ -29,6 +29,13 @@ MODNAME = "c17_scenario_module"
 
 
 def run_impl(sc):
+    if sc.get("probe") == "copy_attach":
+        from . import c12
+        return c12.copy_attach_probe(sc)
+    return run_impl_(sc)
+
+
+def run_impl_(sc):
     """returns {"A": observations of the original (prefix + suffixA), "B": prefix + clone + suffixB,
     "bad": direct assertion failures}"""
     R = eng.RUN = eng.Run(sc)
@@ -75,7 +82,9 @@ def run_impl(sc):
         def do(sm, op):
             R.log = []
             try:
-                if op[0] == "send":
+                if op[0] == "send" and sc.get("bound_model") and hasattr(sm.model, eng.evname(op[1])):
+                    r = getattr(sm.model, eng.evname(op[1]))(tag=op[2])     # the trigger bound onto the (copied) model
+                elif op[0] == "send":
                     r = sm.send(eng.evname(op[1]), tag=op[2])
                 elif op[0] == "activate":
                     r = sm.activate_initial_state()
@@ -115,6 +124,8 @@ def run_impl(sc):
         if sm is None:
             eng.RUN = None
             return {"A": pre, "B": pre, "bad": []}
+        if sc.get("bound_model"):
+            sm.bind_events_to(model)         # the model gets the triggers as attributes: copied with the machine
         sm.custom_attr = {"k": [1, 2]}
         sm._private_note = ["kept", 3]           # the user's own underscore attribute
         for op in sc["prefix"]:
@@ -177,6 +188,8 @@ def run_impl(sc):
 
 
 def coq_case(sc, obs):
+    if sc.get("probe"):
+        return f"[(asserted {0 if obs['bad'] else 1})]"
     a = dict(sc, ops=[["construct"]] + sc["prefix"] + sc["suffixA"])
     b_ = dict(sc, ops=[["construct"]] + sc["prefix"] + [["clone"]] * len(sc["how"].split("+")) + sc["suffixB"])
     items = ["(wfc " + eng.coq_case(a, obs["A"]) + ")", "(wfc " + eng.coq_case(b_, obs["B"]) + ")",
@@ -185,6 +198,8 @@ def coq_case(sc, obs):
 
 
 def render_source(sc):
+    if sc.get("probe"):
+        return "# probe: a listener attached to only one of a machine and its shallow / deep copy (see harness/c12.py)\n"
     return (eng.render_source(dict(sc, ops=[])) +
             f"\n# prefix={sc['prefix']}\n# copy with {sc['how']}\n# then alternately: original {sc['suffixA']} / clone {sc['suffixB']}\n")
 
@@ -235,9 +250,13 @@ def generate(rng, tier):
         sc["inst_attrs"] = rng.random() < 0.6
         add_late(sc, rng, 0.9 if many else 0.5)
         sc["observer_alias"] = rng.random() < 0.3
+        sc["bound_model"] = rng.random() < 0.3
         # guards provided both by machine/model and by a listener regroup on the clone (D19): keep each
         # guard name within one of the two sides
         scs.append(split_ops(rng, sc))
+    for k in range(12):
+        scs.append({"probe": "copy_attach", "seed": rng.randrange(10 ** 6), "first": ["copy", "deepcopy"][k % 2],
+                    "side": ["copy", "original"][(k // 2) % 2]})
     return scs, [("seeded random machines (sync / async, rtc on/off, allow flag, start_value, stored state, state "
                   "values, listeners) cloned with deepcopy or pickle after a random prefix (also before any event, "
                   "i.e. before the activation of an async machine), then original and clone driven alternately with "
@@ -247,7 +266,7 @@ def generate(rng, tier):
 def nontrivial(sc, obs):
     """Non-trivial: the clone was taken after >= 1 event (or before activation of an async machine) and
     the two suffixes differ, with >= 1 callback running on the clone afterwards."""
-    if sc["suffixA"] == sc["suffixB"]:
+    if sc.get("probe") or sc["suffixA"] == sc["suffixB"]:
         return False
     nb = sum(1 for o in obs["B"][len(sc["prefix"]) + 1 + len(sc["how"].split("+")):] for e in o["log"] if e[0] == "c")
     return nb >= 1 and (len(sc["prefix"]) >= 1 or bool(sc.get("async")))
@@ -257,6 +276,10 @@ def extra_coverage(scs, obs, verdicts):
     import collections
     h = collections.Counter()
     for s in scs:
+        if s.get("probe"):
+            h["probe: " + s["probe"]] += 1
+            continue
+        h["events driven through triggers bound onto the model"] += 1 if s.get("bound_model") else 0
         h[s["how"]] += 1
         h["late listeners"] += 1 if s.get("late") else 0
         h["async" if s.get("async") else "sync"] += 1
@@ -269,6 +292,8 @@ CLASSIFIERS = {}
 
 
 def explain(sc, obs):
+    if sc.get("probe"):
+        return obs
     a = dict(sc, ops=[["construct"]] + sc["prefix"] + sc["suffixA"])
     b_ = dict(sc, ops=[["construct"]] + sc["prefix"] + [["clone"]] * len(sc["how"].split("+")) + sc["suffixB"])
     from . import core
